@@ -22,6 +22,8 @@ type GenConfig struct {
 	Reads          int  // weight of read
 	Enc            int  // weight of upenc (C15 only)
 	Raw            int  // weight of raw (C12 only)
+	Serve          int  // weight of serve (chunks of a file delivered to the peer; C17)
+	GCRace         int  // weight of gcr (collection with an operation racing with the first eviction; C12)
 	Dirs           bool
 	Budget         int // full-chunk units a case may upload / transfer (cost bound)
 }
@@ -202,6 +204,46 @@ func GenHistory(r *core.Rand, cfg GenConfig) []string {
 			}
 			ops = append(ops, "upenc "+e+" "+pin)
 			note(e)
+		}},
+		{cfg.Serve, func() {
+			s := anyOf()
+			// mostly data chunks (they have a bit in the peer's record), sometimes a pyramid key
+			if r.Chance(75) {
+				ops = append(ops, fmt.Sprintf("serve %s d%d", s, r.Intn(3)))
+			} else {
+				ops = append(ops, fmt.Sprintf("serve %s h%d", s, r.Intn(4)))
+			}
+			if r.Chance(50) {
+				ops = append(ops, fmt.Sprintf("serve %s d%d", s, r.Intn(3)))
+			}
+		}},
+		{cfg.GCRace, func() {
+			// trigger: a cached file, mostly the one cached first (the oldest gc entry is the first candidate)
+			trig := anyOf()
+			if len(atP) > 0 {
+				if r.Chance(60) {
+					trig = atP[0]
+				} else {
+					trig = atP[r.Intn(len(atP))]
+				}
+			}
+			tgt := trig
+			if r.Chance(35) {
+				tgt = anyOf()
+			}
+			act, which := "pin", "-"
+			switch r.Intn(10) {
+			case 0, 1:
+				act = "unpin"
+			case 2, 3, 4:
+				act = "get"
+				if r.Bool() {
+					which = fmt.Sprintf("d%d", r.Intn(3))
+				} else {
+					which = fmt.Sprintf("h%d", r.Intn(4))
+				}
+			}
+			ops = append(ops, fmt.Sprintf("gcr %d %s %s %s %s", r.Pick([]int{0, 0, 1, 2, 3}), trig, act, tgt, which))
 		}},
 		{cfg.Raw, func() {
 			l := r.Pick([]int{0, 1, 2, 3})
